@@ -336,6 +336,10 @@ class C08(Check):
                       **cfg['solver_kw'])
         except Exception as e:
             return self._refused(res, e, spec, rec)
+        if rec.lossy_time():
+            V('L-clock', 'silent', 'time-precision', f'float64 model: the time argument reached the generated function as '
+                                                     f'{rec.lossy_time()} (solver={cfg["solver"]}, backend={cfg.get("backend")})')
+            return res
         E = rec.events
         if not E:
             V('L-count', 'silent', 'no-events', 'no RHS evaluation recorded')
